@@ -63,10 +63,13 @@ def _job(a):
     obs.write(src, data)
     obs.write(cfg, cfgtext)
     env = {"ASAN_OPTIONS": "detect_leaks=0:abort_on_error=1:halt_on_error=1", "UBSAN_OPTIONS": "halt_on_error=1:print_stacktrace=0"} if use_asan else None
+    import time as _t
+    t0 = _t.time()
     rc, so, se = sh([unc, "-c", cfg] + (["-q"] if quiet else []) + ["-l", lang, "-f", src], cwd=tmp, timeout=TIMEOUT * (3 if use_asan else 1), env=env)
+    wall = _t.time() - t0
     ev = {"id": "run|%d" % i, "rc": rc if rc != -999 else 0, "timedout": rc == -999, "outlen": len(so), "errlen": diag_len(se), "quiet": quiet,
           "san": (b"AddressSanitizer" in se or b"runtime error:" in se), "lang": lang}
-    info = {"last_pass": ""}
+    info = {"last_pass": "", "wall": wall}
     if rc == -999:
         # where does it spin?  re-run with the pass hook for a short time and read the last pass reached
         hooks = os.path.join(os.path.dirname(os.path.dirname(unc)), "hooks", "uncrustify")
@@ -78,6 +81,13 @@ def _job(a):
             # the pass list keeps growing: a convergence loop that does not converge; name the loop, not the pass the kill happened in
             tail = set(passes[-40:])
             info["last_pass"] = "width-loop" if "do_code_width" in tail else ("newline-loop" if "do_blank_lines" in tail else "loop:" + passes[-1])
+        else:
+            # slow or stuck?  a loaded machine must not turn a slow run into an alarm: the same run gets fifteen times the budget
+            rc3, so3, se3 = sh([unc, "-c", cfg] + (["-q"] if quiet else []) + ["-l", lang, "-f", src], cwd=tmp, timeout=TIMEOUT * 15 * (3 if use_asan else 1), env=env)
+            if rc3 != -999:
+                ev.update({"rc": rc3, "timedout": False, "outlen": len(so3), "errlen": diag_len(se3),
+                           "san": (b"AddressSanitizer" in se3 or b"runtime error:" in se3)})
+                info["slow"] = True
     os.unlink(src)
     os.unlink(cfg)
     return ev, info
@@ -153,7 +163,7 @@ def run(ctx):
                 meta[i] = ("frag", fr.encode(), lg, cfgt)
     # capacity probes: every bracket kind nested deeper than any fixed-size table (1024 in check_template, frame stacks), closed and open
     for opener, closer in (("T<a", ">"), ("(", ")"), ("[", "]"), ("{", "}"), ("f(", ")"), ("if (a) ", ""), ("a ? b : ", ""), ("!", ""), ("*", ""), ("#if A\n", "#endif\n")):
-        for depth in ((1100,) if quick else (300, 1100, 5000)):
+        for depth in ((1100,) if quick else (300, 1100, 2500)):
             for closed in (True, False):
                 text = "x = " * (opener in ("(", "[", "!", "*", "a ? b : ")) + opener * depth + "q" + (closer * depth if closed else "") + ";\n"
                 for lg in (("CPP", "C") if quick else ("CPP", "C", "CS", "JAVA", "D", "OC")):
@@ -179,6 +189,11 @@ def run(ctx):
     ctx.cov["formatted"] = sum(1 for e in evs if e["rc"] == 0 and not e["timedout"])
     ctx.cov["sanitizer_build"] = use_asan
     ctx.cov["timed_out"] = sum(1 for e in evs if e["timedout"])
+    slow = sorted(((info["wall"], k) for k, (e, info) in enumerate(res) if not e["timedout"]), reverse=True)[:3]
+    ctx.cov["slowest_terminating_runs_s"] = [round(w, 2) for w, k in slow]
+    ctx.cov["slowest_terminating_inputs"] = [meta[k][0] for w, k in slow]
+    ctx.cov["timeout_s"] = TIMEOUT * (3 if use_asan else 1)
+    ctx.cov["runs_that_needed_the_long_budget"] = sum(1 for e, info in res if info.get("slow"))
     ctx.cov["spin_places"] = sorted({info["last_pass"] for e, info in res if e["timedout"]})
     tp = os.path.join(ctx.work.path, "c06.ndjson")
     write_ndjson(tp, evs)
